@@ -68,7 +68,7 @@ class OpRunner(object):
         name = os.path.basename(pb)
         exists = os.path.lexists(pb)
         isdirlike = exists and os.path.isdir(pb)       # directory or link to directory
-        opts = ['abs', 'rel', 'dotrel', 'updown', 'viaparentlink', 'dblslash']
+        opts = ['abs', 'rel', 'dotrel', 'updown', 'viaparentlink', 'dblslash', 'linkdotdot']
         if isdirlike:
             opts += ['slash1', 'slash2', 'slash3', 'relslash']
         sp = spelling or self.rnd.choice(opts)
@@ -92,6 +92,29 @@ class OpRunner(object):
                 w.baseline[os.fsencode(ln)[len(os.fsencode(w.root)) + 1:]] = world.snap_entry(os.fsencode(ln))
                 w.baseline[b'targets'] = world.snap_entry(os.path.join(w.root, 'targets'))
             return os.fsencode(ln) + b'/' + name, self.neutral_cwd(), sp
+        if sp == 'linkdotdot':
+            # "L/../name" where L is a symlink (kept in ANOTHER directory) to a sub-directory of the entry's parent:
+            # POSIX resolves L first, so the path designates parent/name; a lexical normalisation would designate
+            # <directory of L>/name instead - which is another entry if one of that name exists there
+            sub = parent + b'/.ldsub'
+            if not os.path.lexists(sub):
+                os.mkdir(sub)
+                w.baseline[sub[len(os.fsencode(w.root)) + 1:]] = world.snap_entry(sub)
+            other = None
+            for r2 in world.REGIONS:
+                for d2 in world.DIRS:
+                    cand = w.lpath(r2, d2, a['n'])
+                    if cand != pb and os.path.lexists(cand) and os.path.isdir(os.path.dirname(cand)):
+                        other = os.path.dirname(cand)
+            if other is None:
+                other = os.fsencode(os.path.join(w.root, 'targets'))
+                os.makedirs(other, exist_ok=True)
+                w.baseline.setdefault(b'targets', world.snap_entry(other))
+            ln = other + b'/.ld-%s-%s' % (a['r'].encode(), a['d'].encode())
+            if not os.path.lexists(ln):
+                os.symlink(sub, ln)
+                w.baseline[ln[len(os.fsencode(w.root)) + 1:]] = world.snap_entry(ln)
+            return ln + b'/../' + name, self.neutral_cwd(), sp
         if sp.startswith('slash'):
             return pb + b'/' * int(sp[5:]), self.neutral_cwd(), sp
         if sp == 'relslash':
